@@ -107,8 +107,8 @@ def theirs(src: str):
             return "inconsistent"  # the reference tokenizer is lenient: any non-ASCII character passes as NAME ('€')
         if n in ("NAME", "NUMBER", "STRING", "OP"):
             (l1, c1), (l2, c2) = t.start, t.end
-            if l1 - 1 >= len(lines) or l2 - 1 >= len(lines) or src[offs[l1 - 1] + c1 : offs[l2 - 1] + c2] != t.string:
-                return "inconsistent"
+            if l1 - 1 >= len(lines) or l2 - 1 >= len(lines) or c1 > len(lines[l1 - 1]) or c2 > len(lines[l2 - 1]) or src[offs[l1 - 1] + c1 : offs[l2 - 1] + c2] != t.string:
+                return "inconsistent"  # (a column past the end of its line: slicing alone would forgive it)
         out.append((n, t.string, tuple(t.start), tuple(t.end)))
     return out
 
